@@ -38,11 +38,7 @@ func DeepCast(val Value, typ ast.Type, span errors.Span, allowCasts bool) (*Valu
 	switch val.Kind() {
 	case BoolValueKind:
 		if !allowCasts && typ.Kind() != ast.BoolTypeKind {
-			return nil, NewRuntimeErr(
-				fmt.Sprintf("Incompatible values: a value of type '%s' is not compatible with a value of type '%s'", val.Kind(), typ),
-				CastErrorKind,
-				span,
-			)
+			return nil, NewThrowInterrupt(span, fmt.Sprintf("Incompatible values: a value of type '%s' is not compatible with a value of type '%s'", val.Kind(), typ))
 		}
 
 		baseBool := val.(ValueBool).Inner
@@ -68,11 +64,7 @@ func DeepCast(val Value, typ ast.Type, span errors.Span, allowCasts bool) (*Valu
 		}
 	case IntValueKind:
 		if !allowCasts && typ.Kind() != ast.IntTypeKind {
-			return nil, NewRuntimeErr(
-				fmt.Sprintf("Incompatible values: a value of type '%s' is not compatible with a value of type '%s'", val.Kind(), typ),
-				CastErrorKind,
-				span,
-			)
+			return nil, NewThrowInterrupt(span, fmt.Sprintf("Incompatible values: a value of type '%s' is not compatible with a value of type '%s'", val.Kind(), typ))
 		}
 
 		baseInt := val.(ValueInt).Inner
@@ -93,11 +85,7 @@ func DeepCast(val Value, typ ast.Type, span errors.Span, allowCasts bool) (*Valu
 		}
 	case FloatValueKind:
 		if !allowCasts && typ.Kind() != ast.FloatTypeKind {
-			return nil, NewRuntimeErr(
-				fmt.Sprintf("Incompatible values: a value of type '%s' is not compatible with a value of type '%s'", val.Kind(), typ),
-				CastErrorKind,
-				span,
-			)
+			return nil, NewThrowInterrupt(span, fmt.Sprintf("Incompatible values: a value of type '%s' is not compatible with a value of type '%s'", val.Kind(), typ))
 		}
 
 		baseFloat := val.(ValueFloat).Inner
@@ -118,11 +106,7 @@ func DeepCast(val Value, typ ast.Type, span errors.Span, allowCasts bool) (*Valu
 		}
 	case ObjectValueKind:
 		if !allowCasts && typ.Kind() != ast.ObjectTypeKind && typ.Kind() != ast.AnyObjectTypeKind {
-			return nil, NewRuntimeErr(
-				fmt.Sprintf("Incompatible values: a value of type '%s' is not compatible with a value of type '%s'", val.Kind(), typ),
-				CastErrorKind,
-				span,
-			)
+			return nil, NewThrowInterrupt(span, fmt.Sprintf("Incompatible values: a value of type '%s' is not compatible with a value of type '%s'", val.Kind(), typ))
 		}
 
 		objVal := val.(ValueObject)
@@ -149,32 +133,20 @@ func DeepCast(val Value, typ ast.Type, span errors.Span, allowCasts bool) (*Valu
 					}
 				}
 				if !found {
-					return nil, NewRuntimeErr(
-						fmt.Sprintf("Incompatible values: found unexpected field '%s'", key),
-						CastErrorKind,
-						span,
-					)
+					return nil, NewThrowInterrupt(span, fmt.Sprintf("Incompatible values: found unexpected field '%s'", key))
 				}
 			}
 
 			for _, field := range objType.ObjFields {
 				_, found := objVal.FieldsInternal[field.FieldName.Ident()]
 				if !found {
-					return nil, NewRuntimeErr(
-						fmt.Sprintf("Incompatible values: field '%s' was expected but not found", field.FieldName.Ident()),
-						CastErrorKind,
-						span,
-					)
+					return nil, NewThrowInterrupt(span, fmt.Sprintf("Incompatible values: field '%s' was expected but not found", field.FieldName.Ident()))
 				}
 			}
 
 			return NewValueObject(outputFields), nil
 		default:
-			return nil, NewRuntimeErr(
-				fmt.Sprintf("Incompatible values: a value of type '%s' is not compatible with a value of type '%s'", val.Kind(), typ),
-				CastErrorKind,
-				span,
-			)
+			return nil, NewThrowInterrupt(span, fmt.Sprintf("Incompatible values: a value of type '%s' is not compatible with a value of type '%s'", val.Kind(), typ))
 		}
 	case ListValueKind:
 		listVal := val.(ValueList)
@@ -195,20 +167,12 @@ func DeepCast(val Value, typ ast.Type, span errors.Span, allowCasts bool) (*Valu
 		}
 	case AnyObjectValueKind:
 		if typ.Kind() != ast.AnyObjectTypeKind {
-			return nil, NewRuntimeErr(
-				fmt.Sprintf("Incompatible values: a value of type '%s' is not compatible with a value of type '%s'", val.Kind(), typ),
-				CastErrorKind,
-				span,
-			)
+			return nil, NewThrowInterrupt(span, fmt.Sprintf("Incompatible values: a value of type '%s' is not compatible with a value of type '%s'", val.Kind(), typ))
 		}
 		return &val, nil
 	case OptionValueKind:
 		if typ.Kind() != ast.OptionTypeKind {
-			return nil, NewRuntimeErr(
-				fmt.Sprintf("Incompatible values: a value of type '%s' is not compatible with a value of type '%s'", val.Kind(), typ),
-				CastErrorKind,
-				span,
-			)
+			return nil, NewThrowInterrupt(span, fmt.Sprintf("Incompatible values: a value of type '%s' is not compatible with a value of type '%s'", val.Kind(), typ))
 		}
 
 		opt := val.(ValueOption)
@@ -241,9 +205,5 @@ func DeepCast(val Value, typ ast.Type, span errors.Span, allowCasts bool) (*Valu
 			return &val, nil
 		}
 	}
-	return nil, NewRuntimeErr(
-		fmt.Sprintf("Incompatible values: a value of type '%s' is not compatible with a value of type '%s'", val.Kind(), typ),
-		CastErrorKind,
-		span,
-	)
+	return nil, NewThrowInterrupt(span, fmt.Sprintf("Incompatible values: a value of type '%s' is not compatible with a value of type '%s'", val.Kind(), typ))
 }
